@@ -362,51 +362,12 @@ def structure(chk, w):
                  "together", plan[0].span.loc())
 
 
-def _norm(o):
-    """origin with reference layers and Deref::deref calls removed"""
-    if not isinstance(o, tuple):
-        return o
-    if o[0] in ("ref", "deref"):
-        return _norm(o[1])
-    if o[0] == "call" and o[1].endswith("::deref") and len(o[2]) == 1:
-        return _norm(o[2][0])
-    return tuple(_norm(x) if isinstance(x, tuple) else ([_norm(y) for y in x] if isinstance(x, list) else x)
-                 for x in o)
+import closures
+_norm, _subst, _closure_result, _inline = closures.norm, closures.subst, closures.closure_result, closures.inline
 
 
-def _subst(o, caps, params):
-    """an origin computed inside a closure body, rewritten in its creator's terms: `_1.k` is the
-    k-th captured value, `_2..` the parameters"""
-    if not isinstance(o, tuple):
-        return o
-    if o[0] == "field" and o[1] in (("local", 1), ("arg", 0)) and o[2][1:].isdigit():
-        k = int(o[2][1:])
-        return caps[k] if k < len(caps) else ("unknown",)
-    if o[0] in ("local", "arg"):
-        n = o[1] if o[0] == "local" else o[1] + 1
-        if n >= 2 and n - 2 < len(params):
-            return params[n - 2]
-        return ("unknown",)
-    return tuple(_subst(x, caps, params) if isinstance(x, tuple) else
-                 ([_subst(y, caps, params) for y in x] if isinstance(x, list) else x) for x in o)
-
-
-def _deep(defuse):
-    class Deep(defuse.DefUse):
-        MAXD = 80
-    return Deep
-
-
-def _closure_result(w, agg, params):
-    """the value a closure returns, in its creator's terms (single-block-result closures only)"""
-    import defuse
-    if not (isinstance(agg, tuple) and agg[0] == "agg" and agg[1].startswith("closure:")):
-        return None
-    f = w.fns.get(agg[1][len("closure:"):]) or next((g for g in w.fns.values() if g.id == agg[1][8:]), None)
-    if f is None or f.body is None:
-        return None
-    du = _deep(defuse)(f.body)
-    return _subst(du.origin_local(0), agg[2], params)
+def _deep(_defuse=None):
+    return closures.deep()
 
 
 def _fit(w, o, n=None):
@@ -432,19 +393,6 @@ def _fit(w, o, n=None):
     if cnt[0] == "cast":
         cnt = cnt[2]
     return (s_, cnt, fee, cmp_[1], cmp_[3])
-
-
-def _inline(w, o):
-    """origin with calls of locally created closures replaced by the closure's result"""
-    if not isinstance(o, tuple):
-        return o
-    if o[0] == "call" and len(o[2]) == 2 and isinstance(o[2][0], tuple) and o[2][0][0] == "agg" and \
-            o[2][0][1].startswith("closure:") and o[2][1][0] == "agg" and o[2][1][1] == "tuple":
-        r = _closure_result(w, o[2][0], [_inline(w, x) for x in o[2][1][2]])
-        if r is not None:
-            return _norm(r)
-    return tuple(_inline(w, x) if isinstance(x, tuple) else
-                 ([_inline(w, y) for y in x] if isinstance(x, list) else x) for x in o)
 
 
 def _terms(o):
@@ -548,6 +496,27 @@ def optimistic(chk, w, split):
                  "+ buffer + ceil((len + 1) / FUNDING_OUTPUTS_PER_TX) * fee <= balance` (count over: %s; other terms: %s; "
                  "guards the push: %s)" % (defuse.show(k)[:60] if k is not None else "unrecognised", kinds, guarded),
                  t.span.loc())
+
+
+def _fit_cmp(o):
+    """the same fit test written with a match: `Some(c) if c <= total` over `sum.checked_add(count as u64 * fee)`
+    - the comparison of the Some payload of the checked sum with the total"""
+    o = _norm(o)
+    if not (o[0] == "bin" and o[1] in ("Le", "Lt")):
+        return None
+    a = o[2]
+    if not (a[0] == "field" and a[1][0] == "variant" and a[1][2].endswith("Some")):
+        return None
+    a = a[1][1]
+    if not (a[0] == "call" and a[1].endswith("::checked_add") and len(a[2]) == 2):
+        return None
+    s_, m = a[2]
+    if not (m[0] == "bin" and m[1] == "Mul"):
+        return None
+    cnt, fee = m[2], m[3]
+    if cnt[0] == "cast":
+        cnt = cnt[2]
+    return (s_, cnt, fee, o[1], o[3])
 
 
 def reserve(chk, w, plan):
@@ -661,7 +630,15 @@ def reserve(chk, w, plan):
                 chk.ok("RESERVE", "zero: the count 0 reaches publication only over the true edge of an is_empty "
                        "test of the split", sample=True)
             continue
-        # an oracle answer
+        # an oracle answer - possibly handed on through a joined Option (`let fits = match .. { Some(n) if fit => Some(n),
+        # _ => None }; match fits { Some(n) => break n, .. }`): look through the join at the Some(..) definitions
+        join_bb = None
+        if val[0] == "field" and val[1][0] == "variant" and val[1][2].endswith("Some") and val[1][1][0] == "local":
+            somes = [(bi_, st_) for k_, bi_, st_ in du.defs.get(val[1][1][1], []) if k_ == "stmt" and
+                     st_.rv.kind == "agg" and st_.rv.agg[0] == "adt" and st_.rv.agg[2] == "Some" and st_.rv.ops]
+            if len(somes) == 1:
+                join_bb = somes[0][0]
+                val = _norm(du.origin(somes[0][1].rv.ops[0]))
         n_or += 1
         shown = defuse.show(val)
         if "<indirect>" not in shown and "::call" not in shown and "call(" not in shown:
@@ -676,11 +653,11 @@ def reserve(chk, w, plan):
                 payload = fit[1]
                 fit = fit if payload[0] == "payload" else None
         if fit is None:
-            for sw, v, tb in guards.edge_conditions(b, dbb):
+            for sw, v, tb in guards.edge_conditions(b, dbb) + (guards.edge_conditions(b, join_bb) if join_bb is not None else []):
                 t = b.blocks[sw].term
                 if guards.truth(t, v) is not True or t.discr is None or t.discr.kind not in ("copy", "move"):
                     continue
-                f2 = _fit(w, du.origin(t.discr))
+                f2 = _fit(w, du.origin(t.discr)) or _fit_cmp(du.origin(t.discr))
                 if f2 is not None and f2[1] == val:
                     fit = f2
                     break
